@@ -459,6 +459,17 @@ Section JwtProofs.
     rewrite Forall_forall in F. apply (F k); [apply in_or_app; right; left; reflexivity|exact Ik].
   Qed.
 
+  (** A header without key id (absent or empty: both parse to the empty id)
+      names no key unless some key is registered under the empty id; there is no
+      fallback to any other key. *)
+  Corollary rs256_empty_kid_rejected card now tok t :
+    decode tok = JOk t -> h_kid (t_header t) = [] ->
+    Forall (fun k' => pk_id k' <> []) card ->
+    is_err (rs_verify card now tok).
+  Proof.
+    intros D E F. apply (rs256_unknown_key_rejected card now tok t D). now rewrite E.
+  Qed.
+
   Corollary rs256_expired_key_rejected card now tok t k :
     decode tok = JOk t -> find_key card (h_kid (t_header t)) = Some k ->
     pk_nva k * sec_ns < now -> is_err (rs_verify card now tok).
